@@ -12,7 +12,7 @@ PID = "C05"
 CONCLUSIVE_FLOOR = {"quick": 60, "thorough": 150}
 
 SMALL = ["DensePD", "Diag", "ConstantDiag", "Identity", "CholLower", "CholUpper", "AddedDiag", "AddedConstDiag", "LowRankRootAddedDiag",
-         "PsdSum", "ConstantMulPos", "BatchRepeatPD", "DenseEig"]
+         "PsdSum", "ConstantMulPos", "BatchRepeatPD", "DenseEig", "BatchRepeatPD2"]
 BIG = ["KroneckerPD", "KroneckerDiag", "KroneckerAddedConstDiag", "KroneckerAddedDiag", "KroneckerAddedKronDiag", "SumKronecker", "BlockDiag",
        "BlockInterleaved", "KroneckerEig", "KroneckerAddedConstDiagEig", "KroneckerAddedKronDiagEig"]
 HEAVY_INV = {"KroneckerAddedConstDiag", "KroneckerAddedDiag", "KroneckerAddedKronDiag", "SumKronecker"}  # 4x4 explicit Cholesky vs cofactor inverse
@@ -23,7 +23,7 @@ def cells(tier, seed):
     out = []
     for name in SMALL + BIG:
         for batch in ((), (2,)):
-            if "eig" in BUILDERS[name].tags and batch:
+            if ("eig" in BUILDERS[name].tags or "fixedbatch" in BUILDERS[name].tags) and batch:
                 continue
             if tier == "quick" and batch and name not in ("DensePD", "Diag", "AddedDiag", "KroneckerPD", "BlockDiag", "CholLower"):
                 continue
